@@ -10,6 +10,7 @@ import (
 	"os"
 	"path/filepath"
 	"sync"
+	"sync/atomic"
 	"testing"
 	"testing/synctest"
 	"time"
@@ -141,9 +142,14 @@ func TestRaceStress(t *testing.T) {
 	go func() {
 		defer wg.Done()
 		v := 45000
+		k := 0
 		for ctx.Err() == nil {
 			v = 45000 + (v-45000+777)%40000
 			h.Env.Set("s.temp", v)
+			k++
+			if k%12 == 0 {
+				h.ReadFault("s.temp", 2) // the sensor is unreadable for a moment, then readable again (while everybody polls it)
+			}
 			time.Sleep(3 * time.Millisecond)
 		}
 	}()
@@ -259,6 +265,21 @@ func TestRaceCold(t *testing.T) {
 				}
 			}()
 		}
+		// the sensor's file is unreadable at every third read: outages begin and end while several activities read it
+		var nreads int64
+		env.mu.Lock()
+		env.OnRead = func(e *Env, name string) (int, error, bool) {
+			if name == "s."+sfx && atomic.AddInt64(&nreads, 1)%3 == 0 {
+				return 0, fmt.Errorf("injected read error"), true
+			}
+			return 0, nil, false
+		}
+		env.mu.Unlock()
+		pidc, err := curves.NewSpeedCurve(configuration.CurveConfig{ID: "pid" + sfx, PID: &configuration.PidCurveConfig{Sensor: "s" + sfx, SetPoint: 50, P: -0.05, I: -0.005, D: -0.001}})
+		must(err)
+		curves.RegisterSpeedCurve(pidc)
+		act(func() { _, _ = pidc.Evaluate() }) // a PID curve reads the sensor itself ...
+		act(func() { _, _ = pidc.Evaluate() }) // ... from the goroutine of every fan that uses it
 		top := cl[3]
 		for k := 0; k < 3; k++ { // three fans sharing the top curve
 			act(func() { _, _ = top.Evaluate() })
@@ -281,6 +302,12 @@ func TestRaceCold(t *testing.T) {
 				cs.SetMovingAvg(40000)
 				sensors.RegisterSensor(cs)
 				act(func() { _ = internal.VerifUpdateSensor(cs) })
+				// a linear curve on the command sensor, evaluated by two fans while the monitor updates the average
+				lc, err := curves.NewSpeedCurve(configuration.CurveConfig{ID: fmt.Sprintf("lcs%d%s", k, sfx), Linear: &configuration.LinearCurveConfig{Sensor: fmt.Sprintf("cs%d%s", k, sfx), Min: 30, Max: 70}})
+				must(err)
+				curves.RegisterSpeedCurve(lc)
+				act(func() { _, _ = lc.Evaluate() })
+				act(func() { _, _ = lc.Evaluate() })
 			}
 			cf, err := fans.NewFan(configuration.FanConfig{ID: "cf" + sfx, Curve: "top" + sfx, Cmd: &configuration.CmdFanConfig{
 				SetPwm: &configuration.ExecConfig{Exec: script, Args: []string{"%pwm%"}}, GetPwm: &configuration.ExecConfig{Exec: script},
